@@ -34,7 +34,7 @@ type fseed struct {
 	Format string // xz, lzma, lzma2
 	B      []byte
 	Dict   int
-	Bounds []int // offsets of structural fields worth hitting
+	Bounds []int   // offsets of structural fields worth hitting
 	XS     *xzSeed // parsed container (single-stream xz seeds): basis of structural edits
 }
 
